@@ -10,6 +10,7 @@ CONSTANTS
   CloseLatch = TRUE
   UseShield = TRUE
   SmallTakesLock = TRUE
+  OvrTakesLock = TRUE
 INVARIANT WireOrderIsCtxOrder
 INVARIANT NoCtxAdvanceWithoutFrame
 INVARIANT DecodeOK
